@@ -13,7 +13,7 @@ import os
 import sys
 
 from vlib import vloader
-from vlib.comb import AND, COUNT, IABS, IFF, IMAX, IMIN, IMPLIES, ITE, NOT, OR  # noqa: F401
+from vlib.comb import AND, COUNT, IABS, IFF, IMAX, IMIN, IMPLIES, ISUM, ITE, NOT, OR  # noqa: F401
 
 PLAIN = os.environ.get("VERIF_PLAIN") == "1"
 OPTS = set(filter(None, os.environ.get("VERIF_LOADER_OPTS", "").split(",")))
